@@ -41,7 +41,7 @@ def run_case(spec, ctx):
     try:
         for mech, wit in E.oracle_c02(r):
             ctx.violation(mech, wit)
-        if spec.get("late_impls"):
+        if E.has_second_phase(spec):
             for mech, wit in E.oracle_c02(E.second_phase(r)):
                 ctx.violation(mech, dict(wit, evaluation=2))
             ctx.count("second_evaluations_after_late_registration")
